@@ -55,9 +55,16 @@ def regenerate():
                                          ('D', 'names'),
                                          ('A', 'udp', ip4('1.2.3.4'), ip4('10.0.0.1'), 1, 2, None, b'GET / HTTP/1.1\r\n\r\n'),
                                          ('A', 'udp', ip4('1.2.3.4'), ip4('10.0.0.1'), 1, 111, None,
-                                          struct.pack('>IIIIIIIIII', 0x11223344, 0, 2, 100000, 3, 4, 0, 0, 0, 0))])
-    if rc != 0 or len(blocks) != 7:
+                                          struct.pack('>IIIIIIIIII', 0x11223344, 0, 2, 100000, 3, 4, 0, 0, 0, 0)),
+                                         # further Gh0st probes: the reply blob is data for the translator whichever probe yields it
+                                         # (whether *every* Gh0st payload is answered is the exploration's question, not the translator's)
+                                         ('A', 'udp', ip4('1.2.3.4'), ip4('10.0.0.1'), 1, 2, None, b'Gh0st' + bytes(8)),
+                                         ('A', 'udp', ip4('1.2.3.4'), ip4('10.0.0.1'), 1, 2, None, b'Gh0st' + bytes(range(64)))])
+    if rc != 0 or len(blocks) != 9:
         return False, 'dump failed: rc=%s %s' % (rc, err[:300])
+    for alt in (7, 8):
+        if (blocks[3]['r'] or '-').split()[0] in ('-', 'PANIC'):
+            blocks[3] = blocks[alt]
     # free text of the HTTP 401 response and of the rpcbind DUMP entries, from real replies
     rc, out = sh([sys.executable, os.path.join(VERIF, 'harness', 'gen_lean.py'), 'texts', blocks[5]['r'].split()[0], blocks[6]['r'].split()[0],
                   os.path.join(LEAN, 'Masscanned', 'Gen', 'Texts.lean')])
